@@ -32,7 +32,7 @@ ASSUMPTIONS = [
     "64-bit blake2b digests: an accidental collision among <= 1e6 nodes has probability < 1e-7, so a collision with different reference pre-images is reported",
     "floats 0.0/-0.0/NaN, user objects with custom __str__ and same-named Enum classes are outside the generator (don't-care)",
 ]
-MUST_SEE = [
+MUST_SEE = ["payload_legs", "failed_constructions", 
     "equal_key_pairs", "near_miss_same_class", "cross_process_keys", "separator_strings", "falsy_children", "tuple_perm",
     "class_swap", "lifetime_rechecks", "rebuild_legs", "is_equal_true", "is_equal_false", "same_named_class_probe",
 ]
@@ -148,6 +148,62 @@ def join(ctx, U, pool: Pool):
                 "nodes with different content share one content_id",
                 {"content_id": cid, "keys": [canon_repr(k)[:400] for k in list(keys)[:3]], "preimages": sorted(pre)[:3]},
             )
+
+
+def payload_legs(ctx, U, config, k):
+    """Nodes re-created from a payload are nodes like any other: their content_id is the one a freshly built
+    node with the same content gets in the current configuration (payload edited by hand; payload written
+    under another ID_DIGEST_SIZE)."""
+    P = U.P
+    Leaf, Un = U.cls[f"{P}Leaf"], U.cls[f"{P}Un"]
+
+    def mk(v):
+        return Un(child=Leaf(v=v, s="p"), op="-")
+
+    def export(v):
+        n = mk(v)
+        d = n.as_dict()
+        n.child.detach()
+        n.detach()
+        return d
+
+    def compare(m, what):
+        fresh = mk(m.child.v)
+        ctx.evaluations += 1
+        ctx.count("payload_legs")
+        if m.content_id != fresh.content_id or m.child.content_id != fresh.child.content_id or not m.is_equal(fresh) or not fresh.is_equal(m):
+            ctx.violation("cid-of-deserialized-node", f"a node re-created from a payload ({what}) and a freshly built node with the same content have different content_id / are not is_equal", {"what": what, "payload_cid": m.content_id, "fresh_cid": fresh.content_id})
+        for x in (m.child, m, fresh.child, fresh):
+            x.detach()
+
+    d = export(1000 + k)
+    d["child"]["v"] = 2000 + k
+    compare(Un.as_obj(d), "one property value edited in the payload")
+    cur = config.ID_DIGEST_SIZE
+    d = export(3000 + k)
+    config.ID_DIGEST_SIZE = 16 if cur == 8 else 8
+    try:
+        compare(Un.as_obj(d), f"payload written with ID_DIGEST_SIZE={cur}, read with {config.ID_DIGEST_SIZE}")
+    finally:
+        config.ID_DIGEST_SIZE = cur
+
+
+def failed_construction(ctx, U, k):
+    """A construction that raises inside the library (ill-typed children, type check off) must leave nothing behind."""
+    P = U.P
+    L = U.cls[f"{P}Leaf"]
+    good = L(v=k)
+    mk = (
+        lambda: U.cls[f"{P}List"](items=(good, None)),
+        lambda: U.cls[f"{P}Call"](args=(good,), fn=good, kwargs=None),
+        lambda: U.cls[f"{P}List"](items=(good, 5), root=good),
+        lambda: U.cls[f"{P}Picky"](note="boom", child=good),
+    )[k % 4]
+    try:
+        mk()
+    except Exception:  # noqa: BLE001
+        ctx.count("failed_constructions")
+    good.detach()
 
 
 def run_shard(ctx):
@@ -327,6 +383,14 @@ def run_shard(ctx):
                     {"leg": leg, "tree": spec_json(s0), "path": list(p.path)},
                 )
                 break
+        if case % 3 == 1:
+            # failing construction, then the seed tree once more (same key => same content_id, checked by the join)
+            failed_construction(ctx, U, case)
+            r3 = build(U, s0)
+            keep.append(r3)
+            pool.add_tree(s0, r3)
+        if case % 5 == 2:
+            payload_legs(ctx, U, config, case)
         # operations that must not change any content_id
         if case % 4 == 0:
             r = roots[0]
